@@ -145,6 +145,83 @@ Section Smul.
     rewrite H. apply smul_zero_pt.
   Qed.
 
+  (* ---- cancellation, distribution over point addition ---- *)
+
+  Local Notation add_comm := (ed_add_comm p a d).
+  Local Notation add_neg := (ed_add_neg p a d Hp Hp2 Ha Hd).
+
+  Lemma add_cancel_l : forall A B C, oc A -> oc B -> oc C -> can B -> can C ->
+    add A B = add A C -> B = C.
+  Proof.
+    intros A B C HA HB HC HcB HcC E.
+    pose proof (ed_neg_oc p a d A HA) as HnA.
+    assert (E' : add (ed_neg p A) (add A B) = add (ed_neg p A) (add A C)) by (rewrite E; reflexivity).
+    rewrite <- !add_assoc in E' by assumption.
+    rewrite (add_comm (ed_neg p A) A), (add_neg A HA) in E'.
+    rewrite !add_zero_l in E' by assumption. exact E'.
+  Qed.
+
+  Lemma add_eq_self : forall A B, oc A -> oc B -> can B -> add A B = A -> B = O.
+  Proof.
+    intros A B HA HB HcB E.
+    apply (add_cancel_l A B O); try assumption.
+    - apply (oc_zero p a d).
+    - apply can_zero; assumption.
+    - assert (HcA : can A) by (rewrite <- E; apply can_add; assumption).
+      rewrite E. symmetry. apply add_zero_r; assumption.
+  Qed.
+
+  Lemma add_swap : forall A B C D, oc A -> oc B -> oc C -> oc D ->
+    add (add A B) (add C D) = add (add A C) (add B D).
+  Proof.
+    intros A B C D HA HB HC HD.
+    assert (HCD : oc (add C D)) by (apply add_closed; assumption).
+    assert (HBD : oc (add B D)) by (apply add_closed; assumption).
+    rewrite (add_assoc A B (add C D)) by assumption.
+    rewrite <- (add_assoc B C D) by assumption.
+    rewrite (add_comm B C).
+    rewrite (add_assoc C B D) by assumption.
+    rewrite <- (add_assoc A C (add B D)) by assumption.
+    reflexivity.
+  Qed.
+
+  Lemma smuln_add_pt : forall n A B, oc A -> oc B ->
+    smuln n (add A B) = add (smuln n A) (smuln n B).
+  Proof.
+    induction n as [ | n IH ]; intros A B HA HB; cbn [smul_nat].
+    - symmetry. apply add_zero_l; [ apply (oc_zero p a d) | apply can_zero; assumption ].
+    - rewrite (IH A B HA HB).
+      apply add_swap; try assumption; apply smuln_closed; assumption.
+  Qed.
+
+  Lemma smul_add_pt : forall k A B, oc A -> oc B ->
+    smul k (add A B) = add (smul k A) (smul k B).
+  Proof. intros k A B HA HB. unfold Edwards.smul. apply smuln_add_pt; assumption. Qed.
+
+  (* the killing scalars of a point are closed under gcd *)
+  Lemma smul_gcd_kill : forall m n P, 0 < m -> 0 < n -> oc P ->
+    smul m P = O -> smul n P = O -> smul (Z.gcd m n) P = O.
+  Proof.
+    intros m n P Hm Hn HP Hm0 Hn0.
+    destruct (bezout_nonneg m n Hm Hn) as (u & v & Hu & Hv & E).
+    assert (H1 : smul (u * m) P = O) by (apply smul_kill_mul; (lia || assumption)).
+    assert (H2 : smul (v * n) P = O) by (apply smul_kill_mul; (lia || assumption)).
+    rewrite E in H1.
+    assert (Hvn : 0 <= v * n) by (apply Z.mul_nonneg_nonneg; lia).
+    pose proof (Z.gcd_nonneg m n) as Hg.
+    rewrite smul_add in H1 by (lia || assumption).
+    rewrite H2 in H1. rewrite <- H1. symmetry.
+    apply add_zero_r; [ apply smul_oc | apply smul_can ]; exact HP.
+  Qed.
+
+  Lemma smul_coprime_kill : forall m n P, 0 < m -> 0 < n -> Z.gcd m n = 1 ->
+    oc P -> can P -> smul m P = O -> smul n P = O -> P = O.
+  Proof.
+    intros m n P Hm Hn Hg HP HcP Hm0 Hn0.
+    pose proof (smul_gcd_kill m n P Hm Hn HP Hm0 Hn0) as H.
+    rewrite Hg, smul_1 in H by assumption. exact H.
+  Qed.
+
   (* a non-trivial point killed by a prime n has order exactly n *)
   Theorem smul_prime_order : forall n P, prime n -> oc P -> can P ->
     smul n P = O -> P <> O ->
